@@ -303,14 +303,14 @@ def eval_cases(ctx, cases, obs, name):
     return res, ""
 
 
-def gen_locks(ctx):
-    """Translator: go/ast over ctx.repo/mempool -> coq/Gen/Locks.v."""
+def gen_locks(ctx, repo=None):
+    """Translator: go/ast over <repo>/mempool -> coq/Gen/Locks.v."""
     src = os.path.join(ctx.verif, "gen", "gen_locks.go")
     if not os.path.exists(src):
         return None
     outp = os.path.join(ctx.verif, "coq", "Gen", "Locks.v")
     tmp = os.path.join(ctx.workdir, "Locks.v")
-    rc, log = vf.sh(["go", "run", src, os.path.join(ctx.repo, "mempool"), tmp], cwd=os.path.join(ctx.verif, "gen"),
+    rc, log = vf.sh(["go", "run", src, os.path.join(repo or ctx.repo, "mempool"), tmp], cwd=os.path.join(ctx.verif, "gen"),
                     env=ctx.goenv(), timeout=300)
     if rc != 0:
         raise RuntimeError("gen_locks failed:\n" + log[-2000:])
@@ -324,6 +324,17 @@ def run(ctx):
     rng = ctx.rng
     lock_log = gen_locks(ctx)
     pr = ctx.prove()
+    try:
+        locks_txt = open(os.path.join(ctx.verif, "coq", "Gen", "Locks.v")).read()
+    except OSError:
+        locks_txt = ""
+    # coq/Gen/Locks.v is shared by everybody building coq/: after proving against another tree
+    # (mutant / proposed fix) put the translation of the default tree back at once
+    if os.path.realpath(ctx.repo) != "/repo" and os.path.isdir("/repo/mempool"):
+        try:
+            gen_locks(ctx, "/repo")
+        except RuntimeError:
+            pass
     ctx.cov["trusted_base"] = ["Coq 8.16.1 kernel + vm_compute", "Go toolchain", "overlay build of package mempool (VM stub unused)",
                                "engine harness/engines/mempool (real MemPool, real in-memory ChainStateDB)",
                                "case generator and direct predicate in checks/C13.py", "gen/gen_locks.go (go/ast lock analysis)"]
@@ -415,11 +426,8 @@ def run(ctx):
 
     # ---- lock analysis rows that are not exclusive
     lock_rows = []
-    try:
-        for m in re.finditer(r'\("([^"]+)", "([^"]+)", (\w+)\)', open(os.path.join(ctx.verif, "coq", "Gen", "Locks.v")).read()):
-            lock_rows.append(m.groups())
-    except OSError:
-        pass
+    for m in re.finditer(r'\("([^"]+)", "([^"]+)", (\w+)\)', locks_txt):
+        lock_rows.append(m.groups())
     ctx.cov["lock_rows"] = len(lock_rows)
     weak = [r for r in lock_rows if r[2] != "Excl"]
     created = None      # getUnconfirmed seen creating a list on the real pool
